@@ -229,7 +229,7 @@ theorem c09_mass_add_slip_lost (c : TCfg Wt) (hslip : c.massRootOnly = true) (x 
     absRun σ0 [b] (cell .wordinfo) = eff 0 (σ0 (cell .wordinfo)) := by
   have hop : TTx.massAdd c x d [(wid, f)] =
       ((((x.rd (.wi wid)).dictPut wid m d f).wiRootTouch).wcChange (0 + 0)) := by
-    unfold TTx.massAdd TTx.massLoop
+    unfold TTx.massAdd TTx.massLoop TTx.massRound
     simp only
     have h0' : AMap.get (x.rd (.wi wid)).heap.wordinfo wid = some (.dict m) := h0
     rw [h0']
